@@ -384,8 +384,10 @@ func (z *ZodFloatTyped[T, R]) Overwrite(transform func(T) T, params ...any) *Zod
 
 // Pipe creates a pipeline that feeds the parsed value into another schema.
 func (z *ZodFloatTyped[T, R]) Pipe(target core.ZodType[any]) *core.ZodPipe[R, any] {
+	// The target receives the value this schema produced, in its own type T (a float64
+	// conversion would make Float32().Pipe(Float32()) fail on every input).
 	fn := func(input R, ctx *core.ParseContext) (any, error) {
-		return target.Parse(extractFloatToFloat64[T, R](input), ctx)
+		return target.Parse(extractFloatValue[T, R](input), ctx)
 	}
 	return core.NewZodPipe[R, any](z, target, fn)
 }
